@@ -265,6 +265,7 @@ pub fn meta(args: &Args) -> Value {
         "case_timeout_s": 25,
         "hang_is_violation": false,
         "n_quick": args.cases(600, 40000),
+        "sanitizer": {"kind": "asan", "budget": 600, "slowdown": 6},
     })
 }
 
